@@ -185,6 +185,10 @@ def explore_shard(acc, shard):
         _, init_name, first_op, depth = shard
         model, mk = initial_states()[init_name]
         H.bfs(acc, space(), "B edit histories", init_name, copy.deepcopy(model), mk, OPS, depth, first_op, prop="C01")
+    elif kind == "W":
+        _, init_name = shard
+        model, mk = initial_states()[init_name]
+        H.long_walk(acc, space(), "W long walk from " + init_name, init_name, copy.deepcopy(model), mk, OPS, prop="C01")
 
 
 def probe(p):
@@ -222,6 +226,9 @@ def explore(run):
         shards.append(("B", name, None, 0))
         for i in range(len(OPS) + 1):  # + the 'serialize' operation
             shards.append(("B", name, i, d))
+    for name in initial_states():
+        if "shortened" not in name:
+            shards.append(("W", name))  # one long history per small initial state
     k = run.seed % len(shards)
     shards = shards[k:] + shards[:k]
     run.merge(core.pmap(explore_shard, shards, run.seed))
@@ -239,11 +246,13 @@ def explore(run):
         + ("U: every BMP code point in six contexts and every pair over a 40-character pool; " if run.thorough() else "U: pairs over part of the awkward-character pool; ")
         + f"B: breadth-first edit histories of depth <= {depth} (corpus states {depth - 1}, bare constructor 1) over {len(OPS)} operations + serialize from {len(initial_states())} initial states with state matching on the whole object state incl. string identity. "
         "Cases in msdparser's escaping gaps are detected operationally, must match a listed pattern, and are counted. Non-trivial = has a chart, a None or a metacharacter."
+        + " W: from every small initial state one uninterrupted history on one live object in which every ordered pair of operations (incl. serialize) occurs consecutively (order-2 de Bruijn sequence, about 2000 steps), compared with the model after every step, round trip every 16 steps."
     )
     run.assumptions = [
         "msdparser is the trusted tokenizer/escaper; its escaping gaps are excluded operationally and reported as known findings",
         "mc/models/msd.py states the parameter list the repository must emit",
     ]
+    core.require(acc.outcomes["long walk on one live object"] > 0, "no long walk")
     core.require(acc.c["roundtrips_checked"] > 1000, "too few round trips")
     core.require(acc.outcomes["excluded: dependency gap"] > 0, "no dependency gap seen (classifier inactive?)")
     core.require(acc.outcomes["state reached after an earlier serialization"] > 0, "no history with an intermediate serialization")
